@@ -90,6 +90,16 @@ Definition spec_compound (D : ndata) (s : struct) (density natural_density : opt
   end.
 
 
+(* the density of the calculation when the compound is a formula object with a density of its own:
+   density= is the mass density, natural_density= the density with natural abundances; only when
+   neither is given the formula's own density is used *)
+Definition spec_density_args (own density natural_density : option Q) : option Q * option Q :=
+  match natural_density, density with
+  | Some nd, _ => (density, Some nd)
+  | None, Some r => (Some r, None)
+  | None, None => (own, None)
+  end.
+
 (* ================================================================== the same over R *)
 Open Scope R_scope.
 Definition EF_R : R := Q2R EF_spec.
